@@ -1,10 +1,13 @@
 package lib
 
 import (
+	"bytes"
 	"encoding/json"
 	"fmt"
 	"os"
+	"os/exec"
 	"path/filepath"
+	"runtime"
 	"sort"
 	"strconv"
 	"strings"
@@ -44,7 +47,17 @@ type Ctx struct {
 	Extra       map[string]any
 	Assumptions []string
 	counters    map[string]int
+	sets        map[string]map[string]struct{}
 	MinDistinct int // a run that observed fewer distinct non-trivial cases is inconclusive
+	shard       int // -1: parent / inline; >=0: this process executes the cases i with i % shards == shard, serially
+	shards      int
+	pending     []pendingViolation
+}
+
+type pendingViolation struct {
+	Key    string         `json:"key"`
+	What   string         `json:"what"`
+	Replay map[string]any `json:"replay"`
 }
 
 func NewCtx(id, tier string) *Ctx {
@@ -55,7 +68,10 @@ func NewCtx(id, tier string) *Ctx {
 		}
 	}
 	c := &Ctx{ID: id, Tier: tier, Seed: seed, Level: "exploration", start: time.Now(),
-		knownSeen: map[string]int{}, distinct: map[string]struct{}{}, Extra: map[string]any{}, counters: map[string]int{}, MinDistinct: 2}
+		knownSeen: map[string]int{}, distinct: map[string]struct{}{}, Extra: map[string]any{}, counters: map[string]int{}, sets: map[string]map[string]struct{}{}, MinDistinct: 2, shard: -1}
+	if sh := os.Getenv("VERIF_SHARD"); sh != "" {
+		fmt.Sscanf(sh, "%d/%d", &c.shard, &c.shards)
+	}
 	b, err := os.ReadFile(filepath.Join(VerifRoot, "known_findings.json"))
 	if err == nil {
 		var all []KnownFinding
@@ -119,6 +135,14 @@ func (c *Ctx) Sample(s any) {
 func (c *Ctx) Violation(key string, what string, replay map[string]any) {
 	c.mu.Lock()
 	defer c.mu.Unlock()
+	if c.shard >= 0 {
+		if len(c.pending) < 40 {
+			c.pending = append(c.pending, pendingViolation{key, what, replay})
+		} else {
+			c.pending = append(c.pending, pendingViolation{key, what, nil})
+		}
+		return
+	}
 	for _, k := range c.known {
 		if k.Key == key {
 			if c.knownSeen[key] == 0 {
@@ -180,6 +204,11 @@ func (c *Ctx) Finish() {
 		"samples":             c.Samples,
 		"counters":            c.counters,
 	}
+	ds := map[string]int{}
+	for name, set := range c.sets {
+		ds[name] = len(set)
+	}
+	cov["distinct_sets"] = ds
 	for k, v := range c.Extra {
 		cov[k] = v
 	}
@@ -233,4 +262,162 @@ func (c *Ctx) Finish() {
 	}
 	fmt.Printf("HELD property=%s on everything observed\n", c.ID)
 	os.Exit(0)
+}
+
+// Mark adds key to a named set of distinct things observed (reported as a count under coverage.distinct_sets).
+func (c *Ctx) Mark(set, key string) {
+	c.mu.Lock()
+	if c.sets[set] == nil {
+		c.sets[set] = map[string]struct{}{}
+	}
+	c.sets[set][key] = struct{}{}
+	c.mu.Unlock()
+}
+
+func (c *Ctx) SetSize(set string) int { c.mu.Lock(); defer c.mu.Unlock(); return len(c.sets[set]) }
+func (c *Ctx) InSet(set, key string) bool {
+	c.mu.Lock()
+	defer c.mu.Unlock()
+	_, ok := c.sets[set][key]
+	return ok
+}
+
+// CountersWithPrefix returns the counters whose name starts with prefix (prefix stripped).
+func (c *Ctx) CountersWithPrefix(prefix string) map[string]int {
+	c.mu.Lock()
+	defer c.mu.Unlock()
+	out := map[string]int{}
+	for k, v := range c.counters {
+		if strings.HasPrefix(k, prefix) {
+			out[strings.TrimPrefix(k, prefix)] = v
+		}
+	}
+	return out
+}
+
+// ---- process-per-shard execution ----
+//
+// Every workload that is not about concurrency runs its cases SERIALLY inside child processes (one per shard):
+// the code under test is never called from two goroutines of one process, so a verdict cannot be confounded by
+// a concurrency defect (that is C10's subject), sequences of calls inside one process are deterministic, and a
+// Go fatal error kills one shard only (the parent sees which).
+
+func (c *Ctx) IsShard() bool { return c.shard >= 0 }
+
+// Mine tells whether case i belongs to this process.
+func (c *Ctx) Mine(i int) bool { return c.shard < 0 || i%c.shards == c.shard }
+
+// ForEach runs f serially for the cases of this shard.
+func (c *Ctx) ForEach(n int, f func(i int)) {
+	for i := 0; i < n; i++ {
+		if c.Mine(i) {
+			f(i)
+		}
+	}
+}
+
+type shardDump struct {
+	Evaluations int                 `json:"evaluations"`
+	Distinct    []string            `json:"distinct"`
+	Counters    map[string]int      `json:"counters"`
+	Sets        map[string][]string `json:"sets"`
+	Samples     []any               `json:"samples"`
+	Pending     []pendingViolation  `json:"pending"`
+	Inconcl     []string            `json:"inconclusive"`
+}
+
+func shardFile(id string, k int) string {
+	return filepath.Join(VerifRoot, "out", "shards", fmt.Sprintf("%s-%d.json", id, k))
+}
+
+// FinishShard dumps what this shard observed for the parent and exits 0.
+func (c *Ctx) FinishShard() {
+	d := shardDump{Evaluations: c.Evaluations, Counters: c.counters, Samples: c.Samples, Pending: c.pending, Inconcl: c.inconcl, Sets: map[string][]string{}}
+	d.Distinct = SortedKeys(c.distinct)
+	for name, set := range c.sets {
+		d.Sets[name] = SortedKeys(set)
+	}
+	b, err := json.Marshal(d)
+	if err != nil {
+		fmt.Fprintf(os.Stderr, "shard dump: %v\n", err)
+		os.Exit(3)
+	}
+	_ = os.MkdirAll(filepath.Dir(shardFile(c.ID, c.shard)), 0o755)
+	if err := os.WriteFile(shardFile(c.ID, c.shard), b, 0o644); err != nil {
+		fmt.Fprintf(os.Stderr, "shard dump: %v\n", err)
+		os.Exit(3)
+	}
+	os.Exit(0)
+}
+
+// RunShards re-executes this binary once per shard, waits, and merges what the shards observed.
+// A shard that dies (Go fatal error, signal) is a refuting observation: the library took the process down.
+func (c *Ctx) RunShards() {
+	w := runtime.NumCPU()
+	if s := os.Getenv("VERIF_SHARDS"); s != "" {
+		if v, err := strconv.Atoi(s); err == nil && v > 0 {
+			w = v
+		}
+	}
+	type res struct {
+		k   int
+		err error
+		out string
+	}
+	ch := make(chan res, w)
+	for k := 0; k < w; k++ {
+		_ = os.Remove(shardFile(c.ID, k))
+		go func(k int) {
+			cmd := exec.Command(os.Args[0], os.Args[1:]...)
+			cmd.Env = append(os.Environ(), fmt.Sprintf("VERIF_SHARD=%d/%d", k, w))
+			var buf bytes.Buffer
+			cmd.Stdout = &buf
+			cmd.Stderr = &buf
+			err := cmd.Run()
+			ch <- res{k, err, buf.String()}
+		}(k)
+	}
+	for n := 0; n < w; n++ {
+		r := <-ch
+		b, rerr := os.ReadFile(shardFile(c.ID, r.k))
+		if r.err != nil || rerr != nil {
+			tail := r.out
+			if len(tail) > 6000 {
+				tail = tail[:3000] + "\n...\n" + tail[len(tail)-3000:]
+			}
+			first := tail
+			if i := strings.Index(first, "\n"); i > 0 {
+				first = first[:i]
+			}
+			c.Violation("shard-died", fmt.Sprintf("worker process %d/%d died while driving the library (%v): %s", r.k, w, r.err, first), map[string]any{"output": tail})
+			continue
+		}
+		var d shardDump
+		if err := json.Unmarshal(b, &d); err != nil {
+			c.Inconclusive(fmt.Sprintf("shard %d dump unreadable: %v", r.k, err))
+			continue
+		}
+		c.Evaluations += d.Evaluations
+		for _, k := range d.Distinct {
+			c.distinct[k] = struct{}{}
+		}
+		for k, v := range d.Counters {
+			c.counters[k] += v
+		}
+		for name, keys := range d.Sets {
+			for _, k := range keys {
+				c.Mark(name, k)
+			}
+		}
+		for _, s := range d.Samples {
+			c.Sample(s)
+		}
+		for _, p := range d.Pending {
+			c.Violation(p.Key, p.What, p.Replay)
+		}
+		for _, s := range d.Inconcl {
+			c.Inconclusive(s)
+		}
+		_ = os.Remove(shardFile(c.ID, r.k))
+	}
 }
